@@ -9,9 +9,14 @@
 package verifos
 
 import (
+	"errors"
 	"io"
 	"io/fs"
 	"os"
+	"path/filepath"
+	"strconv"
+	"strings"
+	"sync"
 	"time"
 )
 
@@ -265,4 +270,88 @@ func ReadDir(name string) ([]DirEntry, error) {
 	var d []DirEntry
 	err := simple("readdir", name, "", 0, func() (e error) { d, e = os.ReadDir(name); return })
 	return d, err
+}
+
+// Temporary names and the process id are sources of nondeterminism of their own (os.CreateTemp
+// draws from a random generator): in a simulated run the "random" part of a temporary name is
+// a counter per (directory, pattern) that advances in scheduler order, and the pid is fixed,
+// so that a crash run names its files exactly like the fault-free run it repeats.
+var (
+	tempMu  sync.Mutex
+	tempSeq = map[string]int{}
+)
+
+func tempName(dir, pattern string) (string, error) {
+	if dir == "" {
+		dir = os.TempDir()
+	}
+	for i := 0; i < len(pattern); i++ {
+		if os.IsPathSeparator(pattern[i]) {
+			return "", &os.PathError{Op: "createtemp", Path: pattern, Err: errors.New("pattern contains path separator")}
+		}
+	}
+	prefix, suffix := pattern, ""
+	if i := strings.LastIndexByte(pattern, '*'); i >= 0 {
+		prefix, suffix = pattern[:i], pattern[i+1:]
+	}
+	// the counter advances while this goroutine holds the scheduler's grant
+	op, err := before("mktemp", filepath.Join(dir, pattern), "", 0)
+	if err != nil {
+		after(op, err)
+		return "", err
+	}
+	tempMu.Lock()
+	n := tempSeq[dir+"\x00"+pattern]
+	tempSeq[dir+"\x00"+pattern] = n + 1
+	tempMu.Unlock()
+	after(op, nil)
+	return filepath.Join(dir, prefix+strconv.Itoa(1000000007+n*7919)+suffix), nil
+}
+
+func CreateTemp(dir, pattern string) (*File, error) {
+	if !simOn {
+		f, err := os.CreateTemp(dir, pattern)
+		if err != nil {
+			return nil, err
+		}
+		return wrap(f), nil
+	}
+	for try := 0; try < 10000; try++ {
+		name, err := tempName(dir, pattern)
+		if err != nil {
+			return nil, err
+		}
+		f, err := OpenFile(name, os.O_RDWR|os.O_CREATE|os.O_EXCL, 0600)
+		if os.IsExist(err) {
+			continue
+		}
+		return f, err
+	}
+	return nil, &os.PathError{Op: "createtemp", Path: filepath.Join(dir, pattern), Err: os.ErrExist}
+}
+
+func MkdirTemp(dir, pattern string) (string, error) {
+	if !simOn {
+		return os.MkdirTemp(dir, pattern)
+	}
+	for try := 0; try < 10000; try++ {
+		name, err := tempName(dir, pattern)
+		if err != nil {
+			return "", err
+		}
+		err = Mkdir(name, 0700)
+		if os.IsExist(err) {
+			continue
+		}
+		return name, err
+	}
+	return "", &os.PathError{Op: "mkdirtemp", Path: filepath.Join(dir, pattern), Err: os.ErrExist}
+}
+
+// Getpid is constant in a simulated run.
+func Getpid() int {
+	if simOn {
+		return 4242
+	}
+	return os.Getpid()
 }
